@@ -230,6 +230,184 @@ fn r_to_toml_value(v: &RVal) -> toml::Value {
     }
 }
 
+#[cfg(feature = "t")]
+mod tmap {
+    use refmodel::rng::Rng;
+    use serde::Deserialize;
+    use toml::map::Entry;
+    use toml::Value;
+
+    /// a random call sequence on a toml::Table next to a plain insertion-ordered model; returns the
+    /// digest material: every call's result, the final content sorted by key, the final iteration
+    /// order, and the model's (insertion) order
+    pub fn ops(rng: &mut Rng) -> (String, String, String, Vec<String>) {
+        let keys = ["d", "b", "a", "f", "g", "c", "e", "h"];
+        let mut t = toml::Table::new();
+        let mut model: Vec<(String, i64)> = Vec::new();
+        let mut out = String::new();
+        let n = 4 + rng.below(28);
+        let mut next = 0i64;
+        for _ in 0..n {
+            let k = keys[rng.below(keys.len())].to_string();
+            next += 1;
+            match rng.below(12) {
+                0 | 1 | 2 => {
+                    let r = t.insert(k.clone(), Value::Integer(next));
+                    out.push_str(&format!("insert({k})={r:?};"));
+                    match model.iter_mut().find(|e| e.0 == k) {
+                        Some(e) => e.1 = next,
+                        None => model.push((k, next)),
+                    }
+                }
+                3 => {
+                    let r = t.remove(&k);
+                    out.push_str(&format!("remove({k})={r:?};"));
+                    model.retain(|e| e.0 != k);
+                }
+                4 | 5 => match t.entry(k.clone()) {
+                    Entry::Occupied(e) => {
+                        let r = e.remove();
+                        out.push_str(&format!("entry({k}).remove()={r:?};"));
+                        model.retain(|e| e.0 != k);
+                    }
+                    Entry::Vacant(e) => {
+                        e.insert(Value::Integer(next));
+                        out.push_str(&format!("entry({k}).vacant.insert;"));
+                        model.push((k, next));
+                    }
+                },
+                6 => match t.entry(k.clone()) {
+                    Entry::Occupied(mut e) => {
+                        let r = e.insert(Value::Integer(next));
+                        out.push_str(&format!("entry({k}).insert()={r:?};"));
+                        model.iter_mut().find(|e| e.0 == k).unwrap().1 = next;
+                    }
+                    Entry::Vacant(_) => out.push_str(&format!("entry({k}).vacant;")),
+                },
+                7 => {
+                    let r = t.entry(k.clone()).or_insert(Value::Integer(next)).clone();
+                    out.push_str(&format!("entry({k}).or_insert={r:?};"));
+                    if !model.iter().any(|e| e.0 == k) {
+                        model.push((k, next));
+                    }
+                }
+                8 => {
+                    let m = 2 + rng.below(3) as i64;
+                    t.retain(|_, v| v.as_integer().map_or(true, |x| x % m != 0));
+                    model.retain(|e| e.1 % m != 0);
+                    out.push_str(&format!("retain(%{m});"));
+                }
+                9 => {
+                    out.push_str(&format!("get({k})={:?},{};", t.get(&k), t.contains_key(&k)));
+                }
+                10 => {
+                    out.push_str(&format!("len={},{};", t.len(), t.is_empty()));
+                }
+                _ => {
+                    if let Some(v) = t.get_mut(&k) {
+                        *v = Value::Integer(next);
+                        model.iter_mut().find(|e| e.0 == k).unwrap().1 = next;
+                    }
+                }
+            }
+        }
+        let mut content: Vec<String> = t.iter().map(|(k, v)| format!("{k}={v:?}")).collect();
+        let order: Vec<&str> = t.keys().map(|k| k.as_str()).collect();
+        let order = order.join(",");
+        content.sort();
+        let mut want: Vec<String> = model.iter().map(|(k, v)| format!("{k}={:?}", Value::Integer(*v))).collect();
+        want.sort();
+        if want != content {
+            out.push_str("CONTENT-DIFFERS-FROM-MODEL;");
+        }
+        (out, content.join(","), order, model.into_iter().map(|e| e.0).collect())
+    }
+
+    #[derive(Deserialize, Debug)]
+    #[allow(dead_code)]
+    enum Shape {
+        Unit,
+        Square(i64),
+        Circle { r: i64 },
+        Pair(i64, String),
+    }
+
+    #[derive(Deserialize, Debug)]
+    #[allow(dead_code)]
+    struct Holder {
+        shape: Shape,
+        n: Option<i64>,
+    }
+
+    #[derive(Deserialize, Debug)]
+    #[allow(dead_code)]
+    struct Wide {
+        a: Option<i64>,
+        z: Option<String>,
+        m: Option<Vec<Shape>>,
+        #[serde(flatten)]
+        rest: std::collections::BTreeMap<String, Value>,
+    }
+
+    /// a toml::Value decoded into derived types with `try_into`: verdict and decoded value
+    pub fn into_types(rng: &mut Rng) -> String {
+        let names = ["Square", "Circle", "Unit", "Pair", "Blob"];
+        let payload = |rng: &mut Rng| -> Value {
+            match rng.below(6) {
+                0 => Value::Integer(rng.below(100) as i64),
+                1 => {
+                    let mut m = toml::Table::new();
+                    m.insert("r".into(), Value::Integer(rng.below(100) as i64));
+                    Value::Table(m)
+                }
+                2 => Value::Array(vec![Value::Integer(rng.below(100) as i64), Value::String("s".into())]),
+                3 => Value::String("Unit".into()),
+                4 => Value::Table(toml::Table::new()),
+                _ => {
+                    // position keys in order: with the keys out of order the verdict follows the
+                    // table's iteration order, which is the documented effect of preserve_order
+                    let mut m = toml::Table::new();
+                    m.insert("0".into(), Value::Integer(0));
+                    m.insert("1".into(), Value::String("one".into()));
+                    Value::Table(m)
+                }
+            }
+        };
+        let mut en = toml::Table::new();
+        let k = rng.below(4);
+        let mut order: Vec<&str> = names.to_vec();
+        rng.shuffle(&mut order);
+        for name in order.into_iter().take(k) {
+            en.insert(name.to_string(), payload(rng));
+        }
+        let v = if rng.chance(1, 5) { Value::String(names[rng.below(names.len())].to_string()) } else { Value::Table(en) };
+        let a = match v.clone().try_into::<Shape>() {
+            Ok(x) => format!("ok {x:?}"),
+            Err(_) => "err".to_string(),
+        };
+        let mut holder = toml::Table::new();
+        if rng.coin() {
+            holder.insert("n".into(), Value::Integer(1));
+        }
+        holder.insert("shape".into(), v.clone());
+        let b = match holder.clone().try_into::<Holder>() {
+            Ok(x) => format!("ok {x:?}"),
+            Err(_) => "err".to_string(),
+        };
+        let mut wide = toml::Table::new();
+        for key in ["zz", "m", "a", "b", "z"] {
+            if rng.coin() {
+                wide.insert(key.to_string(), if key == "m" { Value::Array(vec![v.clone()]) } else if key == "a" { Value::Integer(3) } else { Value::String(key.to_string()) });
+            }
+        }
+        let c = match Value::Table(wide).try_into::<Wide>() {
+            Ok(x) => format!("ok {x:?}"),
+            Err(_) => "err".to_string(),
+        };
+        format!("{a} / {b} / {c}")
+    }
+}
+
 fn main() {
     let args: Vec<String> = std::env::args().collect();
     let seed: u64 = args.get(1).and_then(|s| s.parse().ok()).unwrap_or(0);
@@ -348,6 +526,25 @@ fn main() {
                     println!("t-ser-meaning#{i} {}", h(&back));
                 }
             }
+        }
+    }
+
+    // ---------- toml::Table under call sequences, and toml::Value decoded into derived types
+    #[cfg(feature = "t")]
+    {
+        for i in 0..n_built {
+            let mut rng = Rng::new(refmodel::rng::mix(&[seed, 0x3A9, i]));
+            let (results, sorted, order, model_order) = tmap::ops(&mut rng);
+            println!("t-map-ops#{i} {}", h(&format!("{results}|{sorted}")));
+            println!("t-map-order#{i} {}", h(&order));
+            let mut so: Vec<&str> = model_order.iter().map(|s| s.as_str()).collect();
+            println!("expected-map-insertion#{i} {}", h(&so.join(",")));
+            so.sort();
+            println!("expected-map-sorted#{i} {}", h(&so.join(",")));
+        }
+        for i in 0..n_built {
+            let mut rng = Rng::new(refmodel::rng::mix(&[seed, 0x1E7, i]));
+            println!("t-into#{i} {}", tmap::into_types(&mut rng));
         }
     }
 
